@@ -177,6 +177,7 @@ type c05bCase struct {
 	byID   map[string]*c05bLease
 	bySec  map[string]*c05bLease
 	roles  map[string]bool // token roles created so far (roleCreate)
+	deleted map[int]bool   // namespaces deleted so far
 	// namespaces (only in namespace cases): index 1, 2
 	nss    []*namespace.Namespace
 	nsKeys map[string][][]byte
@@ -188,7 +189,7 @@ type c05bCase struct {
 func c05bNewCase(t *testing.T) *c05bCase {
 	c05bRec.reset()
 	k := &c05bCase{t: t, p: vhNewPhys(t), byID: map[string]*c05bLease{}, bySec: map[string]*c05bLease{},
-		sealed: map[int]bool{}, held: map[int]int{}, unseal: map[int]chan error{}}
+		sealed: map[int]bool{}, held: map[int]int{}, unseal: map[int]chan error{}, deleted: map[int]bool{}}
 	k.c, k.keys, k.root = vhNewCore(t, k.p, nil, c05bTweak)
 	if cl, _ := vhReq(k.c, logical.UpdateOperation, "sys/mounts/r5", k.root, map[string]any{"type": "c05brec"}); cl != "ok" {
 		t.Fatal("mount", cl)
@@ -315,7 +316,7 @@ func (k *c05bCase) observe() string {
 		flag := ""
 		var raw *logical.StorageEntry
 		var err error = errors.New("sealed")
-		if !k.sealed[l.ns] {
+		if !k.sealed[l.ns] && !k.deleted[l.ns] {
 			raw, err = m.leaseView(k.nsOf(l.ns)).Get(k.nsCtx(l.ns), id)
 		}
 		if err == nil && raw != nil {
@@ -850,6 +851,27 @@ func (x *c05bRun) seal(ns int) {
 	x.emit(res, "seal", vh.I(int64(ns)))
 }
 
+// nsDelete: DELETE sys/namespaces/<ns>: every lease of the namespace must have been revoked at its backend (and be gone
+// from storage and from the tracking maps) when the namespace is gone
+func (x *c05bRun) nsDelete(ns int) {
+	k := x.k
+	path := strings.TrimSuffix(k.nss[ns].Path, "/")
+	cl, resp := vhReq(k.c, logical.DeleteOperation, "sys/namespaces/"+path, k.root, nil)
+	res := c05bErrClass(resp, cl)
+	for i := 0; i < 800; i++ {
+		n, err := k.c.namespaceStore.GetNamespaceByPath(vhRootCtx(), path)
+		if err != nil || n == nil {
+			break
+		}
+		time.Sleep(10 * time.Millisecond)
+	}
+	// the namespace's leases are not "of a sealed namespace" any more
+	k.sealed[ns] = false
+	k.deleted[ns] = true
+	time.Sleep(300 * time.Millisecond)
+	x.emit(res, "nsdelete", vh.I(int64(ns)))
+}
+
 func (k *c05bCase) doUnseal(ns int) error {
 	for _, key := range k.nsKeys[k.nss[ns].Path] {
 		done, err := TestNamespaceUnseal(k.c, k.nss[ns], key)
@@ -1095,6 +1117,18 @@ func c05bDirected() []func(x *c05bRun) {
 			x.reg(2, 600, 0, true)
 			x.restart(0)
 			x.renew(1, 60)
+		},
+		func(x *c05bRun) { // a namespace with live leases is deleted: they are revoked at the backend, not just wiped
+			x.withNamespaces()
+			x.nsReg(1, 3600, 7200, true)
+			x.nsReg(1, 600, 3600, true)
+			x.nsReg(2, 3600, 0, true)
+			x.reg(0, 3600, 7200, true)
+			x.nsDelete(1)
+			x.renew(4, 60)
+			x.renew(3, 60)
+			x.nsDelete(2)
+			x.renew(4, 60)
 		},
 		func(x *c05bRun) { // the lease entry cannot be read when the retry budget is spent / on an unrecoverable error: still resolved
 			x.reg(0, 3600, 7200, true)
